@@ -152,4 +152,24 @@ theorem getLast?_setStream (l : List Stream) (k : Nat) (f : Stream → Stream) :
       have h2 : ¬ k = r.length := fun e => h1 e.symm
       simp [h1, h2]
 
+def liveAreCounted (l : List Stream) : Bool := l.all (fun st => !st.live || st.counted)
+
+theorem liveAreCounted_setStream (l : List Stream) (k : Nat) (f : Stream → Stream)
+    (hf : ∀ st, (!st.live || st.counted) = true → (!(f st).live || (f st).counted) = true)
+    (h : liveAreCounted l = true) : liveAreCounted (setStream l k f) = true := by
+  induction l generalizing k with
+  | nil => simpa [setStream] using h
+  | cons x r ih =>
+    simp only [liveAreCounted, List.all_cons, Bool.and_eq_true] at h
+    cases k with
+    | zero => simp only [setStream, liveAreCounted, List.all_cons, Bool.and_eq_true]; exact ⟨hf x h.1, h.2⟩
+    | succ k =>
+      simp only [setStream, liveAreCounted, List.all_cons, Bool.and_eq_true]
+      exact ⟨h.1, ih k h.2⟩
+
+theorem liveAreCounted_append (l : List Stream) (st : Stream) (h : liveAreCounted l = true)
+    (hs : (!st.live || st.counted) = true) : liveAreCounted (l ++ [st]) = true := by
+  simp only [liveAreCounted, List.all_append, List.all_cons, List.all_nil, Bool.and_true, Bool.and_eq_true] at h ⊢
+  exact ⟨h, hs⟩
+
 end MosnVerif.Model.Downstream
